@@ -161,7 +161,7 @@ func c17Copy(c *Ctx, rel string) {
 		nz := plainEdges(edgesMatching(hb, "bin<!=>("+bigSign+"(p0), 0)", "bin<!=>("+bigSign+"(p1), 0)"))
 		zz := edgesMatching(hb, "bin<==>("+bigSign+"(p0), 0)", "bin<==>("+bigSign+"(p1), 0)")
 		ok := len(nz) == 2 && len(zz) == 2
-		sets := ana.CallsTo(zHelper, "(*math/big.Int).SetInt64")
+		sets := ana.CallsTo(zHelper, "(*math/big.Int).SetInt64", "(*math/big.Int).SetUint64")
 		ok = ok && len(sets) == 1
 		if ok {
 			t := hb.CallTermAt(sets[0])
